@@ -1541,6 +1541,7 @@ func famBind(r *Rng, o *Out, tier string) {
 		// half of the families: a second third party on the same token, before or after the one whose discharge
 		// gets bound; its own (unbound, genuine) discharge accompanies every presentation
 		var otherDis []byte
+		var otherKB, otherTicket []byte
 		twoTP := fam%2 == 1
 		otherFirst := r.Bool()
 		addOther := func() {
@@ -1552,6 +1553,7 @@ func famBind(r *Rng, o *Out, tier string) {
 				panic(err)
 			}
 			otherDis = mustEnc(od)
+			otherKB, otherTicket = kb, ot.tp.ticket
 		}
 		if twoTP && otherFirst {
 			addOther()
@@ -1884,6 +1886,39 @@ func famBind(r *Rng, o *Out, tier string) {
 				if strings.HasPrefix(obs, "ok") != tc.want {
 					o.emit("(const sound)", "parsed-parent-binding-wrong:"+tc.what)
 				} else {
+					o.emit("(const sound)", "sound")
+				}
+			}
+		}
+		// BOTH third parties' discharges bound: two candidates for the first caveat (one bound to another node, tried
+		// first or second, one bound to the presented node) and a single candidate for the second caveat, bound to that
+		// same other node - so it fails with the very same error text as the first candidate did. Every third-party
+		// caveat needs a discharge of its own that holds: accepted exactly when the other node is an ancestor.
+		if twoTP && otherTicket != nil {
+			for k := 0; k < 6; k++ {
+				bi, pi := r.Intn(len(hs)), r.Intn(len(hs))
+				aOther, aRight := mkDis([][]byte{hs[bi].bytes}, false), mkDis([][]byte{hs[pi].bytes}, false)
+				_, ob, err := macaroon.DischargeTicket(otherKB, "https://other.example", otherTicket)
+				if err != nil || aOther == nil || aRight == nil || ob.Bind(hs[bi].bytes) != nil {
+					continue
+				}
+				ds := [][]byte{aOther, aRight, mustEnc(ob)}
+				if r.Bool() {
+					ds[0], ds[1] = ds[1], ds[0]
+				}
+				if r.Chance(1, 3) {
+					ds[1], ds[2] = ds[2], ds[1]
+				}
+				obs := emitVerify(o, key, hs[pi].bytes, ds, nil)
+				if obs == "err:unmodelled" {
+					continue
+				}
+				want := isDescendant(hs, pi, bi)
+				o.count(fmt.Sprintf("bothBound.want%v", want))
+				switch {
+				case strings.HasPrefix(obs, "ok") != want:
+					o.emit("(const sound)", fmt.Sprintf("both-bound-wrong:other=%d,presented=%d,accepted=%v", bi, pi, !want))
+				default:
 					o.emit("(const sound)", "sound")
 				}
 			}
